@@ -48,6 +48,8 @@ def describe(tier):
 def units(tier):
     cs = _countries(tier)
     u = [{"k": "sid", "countries": cs[i:i + 8]} for i in range(0, len(cs), 8)]
+    if tier == "quick":
+        u.append({"k": "countries"})        # every ISO-3166 alpha-3 code (+ ZAM) with a few field combinations; the full product over all countries is the thorough tier
     triples = solspec.admissible_triples()
     u.append({"k": "sol1"})
     for i in range(len(triples)):
@@ -64,6 +66,10 @@ def _check_sid(kw, res):
         x = solspec.build_sid(kw)
     except AssertionError:
         return False  # outside the constructor's admissible set (prediction without behaviour)
+    except Exception as e:
+        # every combination offered here is a valid id (ISO country or ZAM, positive numbers, S/T/P/I): the constructor must take it
+        res.violation(f"C13|ScenarioID|construct|raises:{type(e).__name__}", f"{kw}: {e!r}", case)
+        return True
     res.evals += 1; res.transitions += 2; res.states += 1
     if kw.get("conf") or kw.get("beh") or kw.get("coop"):
         res.nontrivial += 1
@@ -224,7 +230,8 @@ def _check_sol(spec, res):
     try:
         from commonroad.common.solution import VehicleModel, CostFunction
         for pi, pps in enumerate(sol.planning_problem_solutions):
-            for attr, values in (("vehicle_model", list(VehicleModel)), ("cost_function", list(CostFunction)[:6])):
+            from commonroad.common.solution import VehicleType
+            for attr, values in (("vehicle_model", list(VehicleModel)), ("cost_function", list(CostFunction)[:6]), ("vehicle_type", list(VehicleType))):
                 for val in values:
                     before_attr, before_bid = getattr(pps, attr), sol.benchmark_id
                     try:
@@ -238,9 +245,13 @@ def _check_sol(spec, res):
                             return
                     else:
                         try:
-                            CommonRoadSolutionReader.fromstring(CommonRoadSolutionWriter(sol).dump())
+                            rb = CommonRoadSolutionReader.fromstring(CommonRoadSolutionWriter(sol).dump())
                         except Exception as e:
                             res.violation(f"C13|Solution|accepted-assignment:{attr}|unreadable:{type(e).__name__}", f"{sol.benchmark_id}: {e!r}", case)
+                            return
+                        # the assigned value is what the printed id says and what parses back
+                        if getattr(rb.planning_problem_solutions[pi], attr) != val or rb.benchmark_id != sol.benchmark_id:
+                            res.violation(f"C13|Solution|accepted-assignment:{attr}|not-in-the-printed-id", f"{sol.benchmark_id}: after {attr}={val.name} the id parses back to {getattr(rb.planning_problem_solutions[pi], attr).name}", case)
                             return
                         setattr(pps, attr, before_attr)
     except Exception as e:
@@ -262,6 +273,12 @@ def run_unit(unit, tier):
     triples = solspec.admissible_triples()
     if k == "sid":
         _sid_unit(unit, res)
+    elif k == "countries":
+        import iso3166
+        for c in ["ZAM"] + sorted(iso3166.countries_by_alpha3):
+            for coop, beh, pred in ((False, None, None), (True, "T", 1), (False, "S", [1, 2])):
+                _check_sid({"coop": coop, "country": c, "map": "Test", "map_id": 1, "conf": None if beh is None else 2, "beh": beh, "pred": pred, "ver": "2020a"}, res)
+        res.sample({"k": "countries"}, 1)
     elif k == "sol1":
         for t in triples:
             for kind in solspec.kinds_for_model(t[0]):
